@@ -61,6 +61,7 @@ def engFr (s : St) (a : List String) : St × String :=
         let (sys', ms) := feedConn (ipfixDecoder fastLookup s.mode) s.sys c b
         ({ s with sys := sys' }, renderMsgs ms)
     | _, _ => (s, "bad-op")
+  | ["tick"] => (s, "ok 0")   -- time passes, every timer armed on the collector's clock fires: a TCP collector arms none
   | ["state", c] =>
     match c.toNat? with
     | some c =>
@@ -126,6 +127,10 @@ def chkFr (s : St) (a : List String) : St × String :=
       | some _ => ({ s with spec := s.spec.eof c }, if obs == ["closed"] then "holds" else "fails not-closed")
       | none => (s, "bad-op")
     | none => (s, "bad-op")
+  | ["tick"] =>
+    -- templates received over TCP have no lifetime (RFC 7011 8.1: they last as long as the session), whatever
+    -- TemplateTTL the collector was configured with: nothing may have been scheduled on its clock
+    (s, if obs == ["ok", "0"] then "holds" else if crashed obs then "fails crash" else "fails timer-armed-on-tcp-collector")
   | _ => (s, "na")
 
 def dispatch (s : St) (line : String) : St × String :=
